@@ -29,6 +29,7 @@ theorem verify_iff_zip215 (h : Lawful lib) (pk msg sig : Bytes) (hpk : pk.length
     (Iota.Ed25519.verify lib pk msg sig = some false ↔ ¬ Zip215 lib pk msg sig) :=
   E1_verify h pk msg sig hpk
 
+omit [AddCommGroup G] in
 /-- the only other outcome is the documented panic on a key that is not 32 bytes. -/
 theorem verify_panics_iff (pk msg sig : Bytes) :
     Iota.Ed25519.verify lib pk msg sig = none ↔ pk.length ≠ 32 := E1_verify_panic pk msg sig
